@@ -63,6 +63,180 @@ def k1_pytest(write_all: bool, wquiet: bool, write: Optional[List[int]]) -> bool
     return True
 
 
+# ---- K2/K3: assertions and their reference files --------------------------------------------------------
+import tdda.referencetest.referencetest as rtm          # noqa: E402
+import tdda.referencetest.checkfiles as cfm             # noqa: E402
+import tdda.referencetest.basecomparison as bcm         # noqa: E402
+from vp.doubles import fakefs                           # noqa: E402
+
+KINDS3 = [None, 'csv', 'graph']
+REF = '/ref/r.txt'
+ACT = '/out/a.txt'
+
+
+def _c(i, n):
+    for k in range(n):
+        if i == k:
+            return k
+    return n - 1
+
+
+def _mk(fs_files):
+    fs = fakefs.FakeFS(fs_files, dirs=['/ref', '/out', '/tmp/T'])
+    fails = []
+    ReferenceTest.regenerate = {}
+    r = ReferenceTest(lambda ok, msg=None: fails.append(msg) if not ok else None)
+    r.verbose = False
+    r.files.tmp_dir = '/tmp/T'
+    r.files.verbose = False
+    return fs, r, fails
+
+
+def _do_assert(r, which, actual, kind, ref=REF):
+    """0 string, 1 text file, 2 list of text files, 3 binary file"""
+    if which == 0:
+        r.assertStringCorrect(actual, ref, kind=kind)
+    elif which == 1:
+        r.assertTextFileCorrect(ACT, ref, kind=kind)
+    elif which == 2:
+        r.assertTextFilesCorrect([ACT], [ref], kind=kind)
+    else:
+        r.assertBinaryFileCorrect(ACT, ref, kind=kind)
+
+
+def k2_only_on_request(which: int, k_assert: int, k_set1: int, f1: bool, k_set2: int, f2: bool, same: bool,
+                       again: bool) -> bool:
+    """
+    pre: which == P['which'] and 0 <= k_assert < 3 and -1 <= k_set1 < 3 and -1 <= k_set2 < 3
+    post: __return__
+    """
+    which, k_assert = _c(which, 4), _c(k_assert, 3)
+    k_set1, k_set2 = _c(k_set1 + 1, 4) - 1, _c(k_set2 + 1, 4) - 1
+    binary = which == 3
+    old = b'old' if binary else 'old'
+    new = old if same else (b'new' if binary else 'new')
+    files = {REF: old, ACT: new}
+    fs, r, fails = _mk(files)
+    table = {}
+    verbose = ReferenceTest.verbose
+    try:
+        with fakefs.patched(fs, rtm, cfm, bcm):
+            # a first assertion under the first setting, then the setting changes, then the same assertion again
+            if k_set1 >= 0:
+                ReferenceTest.set_regeneration(KINDS3[k_set1], f1)
+                table[KINDS3[k_set1]] = f1
+            kind = KINDS3[k_assert]
+            for rnd in range(2 if again else 1):
+                before = dict(fs.files)
+                nlog = len(fs.log)
+                nfails = len(fails)
+                want_regen = table[kind] if kind in table else table.get(None, False)
+                _do_assert(r, which, new, kind)
+                touched = [p for op, p in fs.log[nlog:] if p == REF]
+                if want_regen:
+                    if fs.files.get(REF) != new or len(fails) != nfails:
+                        return False
+                else:
+                    # normal mode: the reference is never created, modified or deleted, whatever the outcome
+                    if touched or fs.files.get(REF) != before.get(REF):
+                        return False
+                    if (len(fails) > nfails) != (fs.files[REF] != new):
+                        return False
+                if rnd == 0 and k_set2 >= 0:
+                    ReferenceTest.set_regeneration(KINDS3[k_set2], f2)
+                    table[KINDS3[k_set2]] = f2
+    finally:
+        ReferenceTest.regenerate = {}
+        ReferenceTest.verbose = verbose
+    return True
+
+
+def k3_regenerate_then_pass(content: str, which: int) -> bool:
+    """
+    pre: len(content) <= P['nc'] and 0 <= which < 3
+    pre: rt.admit(['C10.pdf-reference-encoding'], content, which)
+    post: __return__
+    """
+    which = _c(which, 3)
+    ref = '/ref/r.' + P['ext']
+    fs, r, fails = _mk({ACT: content})
+    verbose = ReferenceTest.verbose
+    try:
+        with fakefs.patched(fs, rtm, cfm, bcm):
+            ReferenceTest.set_regeneration(None, True)
+            _do_assert(r, which, content, None, ref)
+            if fails or ref not in fs.files:
+                return False
+            ReferenceTest.regenerate = {}
+            n = len(fs.log)
+            _do_assert(r, which, content, None, ref)
+            if fails or fs.log[n:]:
+                return False            # must pass, and a passing assertion writes nothing
+    finally:
+        ReferenceTest.regenerate = {}
+        ReferenceTest.verbose = verbose
+    # the reference is read back with the encoding it was written with (None = the locale's, assumed UTF-8);
+    # a mismatch only matters for non-ASCII content
+    w = fs.encodings.get(ref, ('w', None))[1] or 'utf-8'
+    reads = [e or 'utf-8' for p_, e in fs.read_encodings if p_ == ref]
+    same_enc = all(e.lower().replace('_', '-') in (w.lower(), 'utf8' if w == 'utf-8' else w) for e in reads)
+    # (file-vs-file assertions decode both files the same way, so only the in-memory string form is affected)
+    return which != 0 or same_enc or all(ord(c) < 128 for c in content)
+
+
+@rt.known_class('C10.pdf-reference-encoding')
+def _k_pdf(content, which):
+    return P.get('ext') == 'pdf' and which == 0 and any(ord(c) > 127 for c in content)
+
+
+def lift_regen(content, which):
+    """public API on real files (UTF-8 locale)"""
+    import os
+    import shutil
+    import tempfile
+    d = tempfile.mkdtemp(prefix='vp_c10_')
+    fails = []
+    try:
+        act = os.path.join(d, 'a.txt')
+        ref = os.path.join(d, 'r.' + P['ext'])
+        with open(act, 'w', newline='', encoding='utf-8') as f:
+            f.write(content)
+        r = ReferenceTest(lambda ok, msg=None: fails.append(msg) if not ok else None)
+        r.verbose = False
+        r.files.tmp_dir = d
+        ReferenceTest.regenerate = {None: True}
+        args = [(content,), (act,), ([act],)][which]
+        fn = [r.assertStringCorrect, r.assertTextFileCorrect, r.assertTextFilesCorrect][which]
+        fn(args[0], [ref] if which == 2 else ref)
+        ReferenceTest.regenerate = {}
+        fn(args[0], [ref] if which == 2 else ref)
+    finally:
+        ReferenceTest.regenerate = {}
+        shutil.rmtree(d, ignore_errors=True)
+    return not fails
+
+
+def k3_binary_regenerate(data: List[int]) -> bool:
+    """
+    pre: len(data) <= 3 and all(0 <= b <= 255 for b in data)
+    post: __return__
+    """
+    fs, r, fails = _mk({ACT: bytes(data)})
+    verbose = ReferenceTest.verbose
+    try:
+        with fakefs.patched(fs, rtm, cfm, bcm):
+            ReferenceTest.set_regeneration(None, True)
+            r.assertBinaryFileCorrect(ACT, '/ref/r.bin')
+            ReferenceTest.regenerate = {}
+            n = len(fs.log)
+            r.assertBinaryFileCorrect(ACT, '/ref/r.bin')
+            ok = not fails and not fs.log[n:] and fs.files.get('/ref/r.bin') == bytes(data)
+    finally:
+        ReferenceTest.regenerate = {}
+        ReferenceTest.verbose = verbose
+    return ok
+
+
 def _obs():
     obs = []
     Q, T = 'quick', 'thorough'
@@ -85,10 +259,31 @@ def _obs():
                   'kinds iff --write-all, else exactly for the kinds in --write',
                   'config options symbolic: write_all, wquiet booleans; --write None or <=2 entries from %r'
                   % ac.KINDS, timeout=60, stubs=['pytest request/config: plain object with getoption()']))
+    for which, wname in enumerate(['assertStringCorrect', 'assertTextFileCorrect', 'assertTextFilesCorrect',
+                                   'assertBinaryFileCorrect']):
+        obs.append(Ob('K2', 'k2_only_on_request', '%s writes its reference exactly when the regeneration table says '
+                      'so for its kind (own flag, else the None flag, else no) - also when the setting changes '
+                      'between two assertions - and in normal mode never creates, modifies or deletes it, whether it '
+                      'passes or fails' % wname,
+                      'kind of the assertion and of two set_regeneration calls over {None, csv, graph, <no call>}, '
+                      'flags symbolic; actual equal to / different from the reference; one or two assertions',
+                      param={'which': which}, timeout=600, stubs=['fakefs']))
+    for ext in ('txt', 'pdf'):
+        for nc, tier, to in ((2, 'quick', 400), (3, 'thorough', 3000)):
+            obs.append(Ob('K3', 'k3_regenerate_then_pass', 'after a string / text file / list of text files assertion '
+                          'has regenerated its reference, the same assertion in normal mode passes and writes '
+                          'nothing; the reference is read back with the encoding it was written with',
+                          'content: any string len<=%d (incl. CR, LF, no final newline, non-ASCII); reference name '
+                          'r.%s' % (nc, ext), param={'nc': nc, 'ext': ext}, timeout=to, tier=tier, stubs=['fakefs'],
+                          known=['C10.pdf-reference-encoding'] if ext == 'pdf' else [], lift='lift_regen'))
+    obs.append(Ob('K3', 'k3_binary_regenerate', 'after assertBinaryFileCorrect has regenerated its reference it holds '
+                  'exactly the actual bytes and the same assertion passes in normal mode, writing nothing',
+                  'any byte string len<=3', timeout=120, stubs=['fakefs']))
     return obs
 
 
 OBLIGATIONS = _obs()
 ASSUMPTIONS = ['long tdda options occur at most once per command line; nothing but kind names follows --write',
                'ReferenceTest.regenerate is reset before each path (it is process-global class state)']
-OUTSIDE = ['unittest.main / pytest option parsing themselves']
+OUTSIDE = ['unittest.main / pytest option parsing themselves', 'DataFrame/parquet references (real pandas/pyarrow I/O)',
+           'locales other than UTF-8']
